@@ -151,7 +151,7 @@ Qed.
 Lemma hb_set_m_error : forall G v ps a s, HBv G v ps ->
   post (set_m_error NFixed v a) s (fun r _ => HBv G (fst r) ps).
 Proof.
-  intros G v ps a s HB. unfold set_m_error. destruct a as [| | |n].
+  intros G v ps a s HB. unfold set_m_error. destruct a as [| | |n|n].
   - apply post_ret; auto.
   - apply post_bind; intros u s1 _. apply post_ret; exact HB.
   - apply post_ret; auto.
@@ -163,6 +163,9 @@ Proof.
       unfold bind in E2. destruct (malloc _ s1) as [[[b|] s3]|]; inversion E2; subst; auto. }
     destruct r as [v1|]; [|apply post_ret; auto].
     apply post_bind; intros u s3 _. apply post_ret; exact Hr.
+  - destruct (negb (vn_fvalid v)); [apply post_ret; auto|].
+    apply post_bind; intros ok s1 _. destruct (negb ok); [apply post_ret; auto|].
+    apply post_bind; intros ok2 s2 _. apply post_ret; exact HB.
 Qed.
 
 Lemma hb_write_back : forall unk freqs ps pv s,
@@ -194,11 +197,12 @@ Qed.
 Arguments allocl : simpl never.
 Arguments write_back : simpl never.
 
-Lemma hb_solve : forall G v ps body trl s, HBv G v ps ->
-  post (solve NFixed v ps body trl) s (fun r _ => HBr G ps r).
+Lemma hb_solve : forall G v ps body trl fails s, HBv G v ps ->
+  post (solve NFixed v ps body trl fails) s (fun r _ => HBr G ps r).
 Proof.
-  intros G v ps body trl s HB. unfold solve. cbv zeta.
+  intros G v ps body trl fails s HB. unfold solve. cbv zeta.
   assert (Hsame : HBr G ps (v, ps, Err ENOMEM)) by (split; auto).
+  assert (Hsame' : HBr G ps (v, ps, Err EINVAL)) by (split; auto).
   destruct (negb (vn_fvalid v)); [apply post_ret; split; auto|].
   apply post_bind. intros [ok0 sm0] s0 _. destruct (negb ok0); [apply post_ret; exact Hsame|].
   apply post_bind. intros [ok1 sm] s1 _. destruct (negb ok1); [apply post_bind; intros u s2 _; apply post_ret; exact Hsame|].
@@ -212,6 +216,7 @@ Proof.
   destruct (negb ok5); [apply post_bind; intros u s6 _; apply post_bind; intros u' s7 _; apply post_ret; exact Hsame|].
   apply post_bind. intros [ok6 tm] s6 _. apply post_bind; intros u6 s7 _.
   destruct (negb ok6); [apply post_bind; intros u s8 _; apply post_bind; intros u' s9 _; apply post_bind; intros u'' s10 _; apply post_ret; exact Hsame|].
+  destruct fails; [apply post_bind; intros u s8 _; apply post_bind; intros u' s9 _; apply post_bind; intros u'' s10 _; apply post_ret; exact Hsame' |].
   apply post_bind. intros [[okw ps'] pv'] s8 E8. destruct (hb_write_back _ _ _ _ _ _ _ E8) as [Hh Hl].
   destruct (negb okw).
   - apply post_bind; intros u s9 _; apply post_bind; intros u' s10 _; apply post_bind; intros u'' s11 _. apply post_ret.
@@ -285,7 +290,7 @@ Qed.
 
 Lemma hbw_step : forall w op s, HBW w -> post (wstep NFixed w op) s (fun r _ => HBW (fst r)).
 Proof.
-  intros w op s HW. pose proof HW as [H1 H2]. destruct op as [c|h|h a|h a|h body trl|h]; simpl.
+  intros w op s HW. pose proof HW as [H1 H2]. destruct op as [c|h|h a|h a|h body trl fails|h]; simpl.
   - apply post_bind. intros [[ov ps'] out] s1 E1.
     destruct (hb_new_alloc (fun j => cnt j (flat_map okeys (w_new w))) c (w_prm w) s H1 _ _ E1) as [A Hl].
     assert (Hold : forall h0 v0, nth h0 (w_new w) None = Some v0 ->
@@ -311,7 +316,7 @@ Proof.
     apply post_ret. simpl. apply (hbw_put w h v v' (w_prm w) HW Hh); auto.
   - unfold handle. destruct (nth h (w_new w) None) as [v|] eqn:Hh; [|apply post_ret; simpl; auto].
     apply post_bind. intros [[v' ps'] out] s1 E1.
-    destruct (hb_solve _ v (w_prm w) body trl s (hbw_take w h v HW Hh) _ _ E1) as [A Hl].
+    destruct (hb_solve _ v (w_prm w) body trl fails s (hbw_take w h v HW Hh) _ _ E1) as [A Hl].
     apply post_ret. simpl. apply (hbw_put w h v v' ps' HW Hh); auto.
   - unfold handle. destruct (nth h (w_new w) None) as [v|] eqn:Hh; [|apply post_ret; simpl; auto].
     apply post_bind. intros ps' s1 E1.
@@ -389,4 +394,21 @@ Proof.
   { split; [intro j; cbn [w_prm w_new flat_map]; rewrite hcount_mkprms, cnt_nil; reflexivity | intros h v Hh; cbn [w_new] in Hh; destruct h; discriminate]. }
   pose proof (hbw_run _ _ _ HW0 _ _ E) as HW. simpl in HW.
   exists w. split; [exact HW|]. vm_compute in E. inversion E; subst. vm_compute. auto.
+Qed.
+
+(* every world a history reaches satisfies the hold invariant ... *)
+Theorem hbw_reachable : forall ks ops k w os s, wrun NFixed (mkW (mkprms ks) []) ops (start k) = Ok ((w, os), s) -> HBW w.
+Proof.
+  intros ks ops k w os s E.
+  assert (HW0 : HBW (mkW (mkprms ks) [])).
+  { split; [intro j; cbn [w_prm w_new flat_map]; rewrite hcount_mkprms, cnt_nil; reflexivity | intros h v Hh; cbn [w_new] in Hh; destruct h; discriminate]. }
+  exact (hbw_run ops _ _ HW0 _ _ E).
+Qed.
+
+(* ... in which no release can underflow: a calibration never holds a parameter more often than the parameter records
+   (the model's [release] is [pred], the C code asserts vpmr_hold_count > 0: the assertion cannot fire, the saturation is never used) *)
+Theorem release_no_underflow : forall w h v, HBW w -> nth h (w_new w) None = Some v ->
+  forall j, cnt j (keys v) <= hcount (w_prm w) j.
+Proof.
+  intros w h v HW Hh j. destruct (hbw_take w h v HW Hh) as [H1 _]. rewrite H1. lia.
 Qed.
